@@ -16,6 +16,14 @@ constexpr unsigned ipow(unsigned b, unsigned e) { return e == 0 ? 1 : b * ipow(b
 constexpr unsigned rulesOfRank(unsigned ns, unsigned r) { return ns * ipow(ns, r); }
 // rule index layout: for symbol s (in order), parent p, children tuple t (base-NS number, first child most significant)
 struct Rule { unsigned char sym, rank, parent, child[3]; };
+// library symbol number of universe symbol s.  With SAME_SYMNUM every symbol of the universe has the SAME number (the ranks of
+// SYM_RANKS must then be pairwise different): one symbol number used with several arities, which the explicit encoding permits
+// through AddTransition; in the reference semantics (number, arity) is the symbol.
+#ifdef SAME_SYMNUM
+static inline unsigned symnum(unsigned) { return SAME_SYMNUM; }
+#else
+static inline unsigned symnum(unsigned s) { return s; }
+#endif
 template <unsigned N> struct Univ {
   static unsigned count() { unsigned c = 0; for (unsigned s = 0; s < NSYM; ++s) c += rulesOfRank(N, RANK[s]); return c; }
   static Rule rule(unsigned idx) {
@@ -48,7 +56,7 @@ template <unsigned N> struct SymAut {
     for (unsigned i = 0; i < nrules; ++i) if (pres[i]) {
       Rule r = Univ<N>::rule(i); typename Aut::StateTuple t;
       for (unsigned k = 0; k < r.rank; ++k) t.push_back(rename ? rename[r.child[k]] : r.child[k]);
-      aut.AddTransition(t, r.sym, rename ? rename[r.parent] : r.parent);
+      aut.AddTransition(t, symnum(r.sym), rename ? rename[r.parent] : r.parent);
     }
     for (unsigned s = 0; s < N; ++s) if (fin[s]) aut.SetStateFinal(rename ? rename[s] : s);
   }
